@@ -10,6 +10,7 @@ import (
 	"encoding/json"
 	"fmt"
 	"sort"
+	"sync/atomic"
 	"testing"
 	"testing/synctest"
 	"time"
@@ -275,6 +276,36 @@ func genTimeline(rt *rapid.T) *timeline {
 // Execution inside a synctest bubble.
 // ---------------------------------------------------------------------
 
+// countingBaseClock forwards everything to bb-storage's SystemClock (which,
+// inside a bubble, runs on fake time). Its only job is to turn a re-arm loop
+// that spins without letting time advance (which would hang the bubble
+// forever) into an observable fact: after baseTimerLimit timers it hands out
+// timers that never fire. The documented scheme arms at most one base timer
+// per th of suspended time (plus one per object), far below the limit.
+type countingBaseClock struct {
+	bb_clock.Clock
+	timers   atomic.Int64
+	overflow atomic.Bool
+}
+
+const baseTimerLimit = 5000
+
+type deadTimer struct{}
+
+func (deadTimer) Stop() bool { return true }
+
+func (c *countingBaseClock) NewTimer(d time.Duration) (bb_clock.Timer, <-chan time.Time) {
+	if c.timers.Add(1) > baseTimerLimit {
+		c.overflow.Store(true)
+		return deadTimer{}, make(chan time.Time)
+	}
+	return c.Clock.NewTimer(d)
+}
+
+func newBaseClock() *countingBaseClock {
+	return &countingBaseClock{Clock: bb_clock.SystemClock}
+}
+
 type ctxObservation struct {
 	done        bool
 	at          time.Time
@@ -298,6 +329,7 @@ type outcome struct {
 	ctx     ctxObservation
 	timer   timerObservation
 	nowOK   bool
+	spun    bool // more than baseTimerLimit base timers were armed
 	// Whether the objects had ended when the horizon was reached (before
 	// the harness tore them down).
 	ctxEndedByHorizon   bool
@@ -314,7 +346,9 @@ func runTimeline(t *testing.T, tl *timeline) (out outcome, failure string) {
 	synctest.Test(t, func(st *testing.T) {
 		start := time.Now()
 		out.start = start
-		clk := re_clock.NewSuspendableClock(bb_clock.SystemClock, time.Duration(tl.M)*unit, time.Duration(tl.Th)*unit)
+		base := newBaseClock()
+		defer func() { out.spun = base.overflow.Load() }()
+		clk := re_clock.NewSuspendableClock(base, time.Duration(tl.M)*unit, time.Duration(tl.Th)*unit)
 
 		var (
 			ctx          context.Context
@@ -667,6 +701,9 @@ func TestC11SuspendableClockTimeline(t *testing.T) {
 		out, failure := runTimeline(t, tl)
 		if failure != "" {
 			rt.Fatalf("%s; script=%s", failure, tl)
+		}
+		if out.spun {
+			rt.Fatalf("more than %d base timers were armed for one timeout: the re-arm loop spins; script=%s", baseTimerLimit, tl)
 		}
 		if !out.nowOK {
 			rt.Fatalf("SuspendableClock.Now() differs from the base clock; script=%s", tl)
